@@ -50,7 +50,7 @@ VCS_SUBCOMMANDS_BY_NAME = {
         'ls_tags'       : "git tag --list",
         'ls_tags_branch': "git tag --list --merged",
         'status'        : "git status --porcelain",
-        'add_path'      : "git add --update '{path}'",
+        'add_path'      : "git add --update -- '{path}'",
         'commit'        : "git commit --message '{message}'",
         'tag'           : "git tag --annotate {tag} --message '{message}'",
         'tag_light'     : "git tag {tag}",
@@ -65,7 +65,7 @@ VCS_SUBCOMMANDS_BY_NAME = {
         'ls_tags'       : "hg tags",
         'ls_tags_branch': "hg log --branch . --rev='tag()' --template='{{tags}}\\n'",
         'status'        : "hg status -umard",
-        'add_path'      : "hg add '{path}'",
+        'add_path'      : "hg add -- '{path}'",
         'commit'        : "hg commit --logfile '{path}'",
         'tag'           : "hg tag {tag} --message '{message}'",
         'tag_light'     : "hg tag {tag}",
